@@ -1095,6 +1095,7 @@ func c15Lock(c *Ctx, prog *Prog, fcfg *FCfg, flags []string) {
 	// be refused, and neither may disturb the owner's lock
 	type attempt struct {
 		at                         int
+		readOnly                   bool // an inspecting instance (mrp --inspect): attaches without the lock
 		attempted, lockAtStart, ok bool
 		err                        error
 		startSeq, endSeq           int
@@ -1102,6 +1103,11 @@ func c15Lock(c *Ctx, prog *Prog, fcfg *FCfg, flags []string) {
 	}
 	atts := []*attempt{{at: 30 + c.Plan.Draw(500)}}
 	atts = append(atts, &attempt{at: atts[0].at + 5 + c.Plan.Draw(200)})
+	if c.Plan.Draw(3) == 0 {
+		// the first visitor only inspects; it may attach, but must not write anything,
+		// and the writer which comes after it must still be refused
+		atts[0].readOnly = true
+	}
 	r := c.RunOnce(cfg, func(r *Run) {
 		if cfg.JobFaults != nil {
 			r.OnJobStart = func(j *JobRec) {
@@ -1137,10 +1143,16 @@ func c15Lock(c *Ctx, prog *Prog, fcfg *FCfg, flags []string) {
 					}
 					src, _ := os.ReadFile(path.Join(r.MroDir, "pipeline.mro"))
 					f := core.NewRuntimePipestanceFactory(rt, string(src), path.Join(r.MroDir, "pipeline.mro"), "ps",
-						[]string{r.MroDir}, r.PsDir, "", nil, true, false, nil)
-					ps, err := f.InvokePipeline()
-					if err != nil {
+						[]string{r.MroDir}, r.PsDir, "", nil, true, a.readOnly, nil)
+					var ps *core.Pipestance
+					if a.readOnly {
+						// mrp --inspect only ever re-attaches
 						ps, err = f.ReattachToPipestance(context.Background())
+					} else {
+						ps, err = f.InvokePipeline()
+						if err != nil {
+							ps, err = f.ReattachToPipestance(context.Background())
+						}
 					}
 					a.err = err
 					a.ok = err == nil && ps != nil
@@ -1182,6 +1194,20 @@ func c15Lock(c *Ctx, prog *Prog, fcfg *FCfg, flags []string) {
 			}
 		}
 		info = append(info, map[string]interface{}{"attempt": i + 1, "lock_at_start": a.lockAtStart, "unlocked_during": unlockedDuring, "ok": a.ok, "err": fmt.Sprint(a.err)})
+		if a.readOnly {
+			c.Res.Probes["read-only-attach-attempts"]++
+			for _, ev := range vos.W.Events {
+				if ev.Seq > a.startSeq && ev.Pid == a.pid && ev.Err == "" && (strings.HasPrefix(ev.Path, "ps/") || ev.Path == "ps") {
+					if ev.Path == "ps/_lock" {
+						foreignRemoval = true
+					}
+					c.Res.Violations = append(c.Res.Violations, Violation{"C15", "read-only-instance-wrote",
+						fmt.Sprintf("attempt %d: an instance attached read-only (inspect) performed '%s' on %s while the first mrp held the pipestance", i+1, ev.Op, ev.Path), r.Steps})
+					break
+				}
+			}
+			continue
+		}
 		if a.lockAtStart && !unlockedDuring && firstAlive {
 			c.Res.Probes["attach-while-locked"]++
 			if a.ok {
